@@ -993,20 +993,56 @@ func extremeNesting(b []byte) (bool, string) {
 
 type slowVerdict struct {
 	Kind    string // unconfirmed | hang | extreme
+	Path    string // replay file already written and announced (hang)
 	Raw     []byte // (minimised) case
 	Detail  string
 	Observe string
 }
 
-// confirmSlow re-runs a suspected non-terminating case three times in fresh children under the full bound.
+// confirmSlow re-runs a suspected non-terminating case in three fresh children (side by side) under the full bound.
 func confirmSlow(sub string, raw []byte) (confirmed bool, note string) {
-	for i := 0; i < 3; i++ {
-		o := runChild(sub, raw, hangCPU, hangWall)
+	var outs [3]childOutcome
+	var wg sync.WaitGroup
+	for i := range outs {
+		wg.Add(1)
+		go func(i int) { defer wg.Done(); outs[i] = runChild(sub, raw, hangCPU, hangWall) }(i)
+	}
+	wg.Wait()
+	for i, o := range outs {
 		if o.Kind != "hang" {
 			return false, fmt.Sprintf("run %d in a fresh process: %s after %.1fs CPU", i+1, o.Kind, o.CPU.Seconds())
 		}
 	}
 	return true, ""
+}
+
+// hangReplayPath: where the replay of a confirmed hang is written (named after the original case, so that the
+// minimised case can replace the preliminary one).
+func hangReplayPath(sub string, raw []byte) string {
+	dir := filepath.Join(vdrv.EvidenceDir(), "failures", "C16")
+	os.MkdirAll(dir, 0o755)
+	return filepath.Join(dir, fmt.Sprintf("%s-hang-%s-seed%d-shard%d-%08x.json", sub, H.Tier, H.Seed, H.Shard, hash32(raw)))
+}
+
+func hangDetail(n int) string {
+	return fmt.Sprintf("the call does not terminate: a fresh process used more than %.0f s of CPU time on this input of %d bytes, three times out of three", hangCPU.Seconds(), n)
+}
+
+// writeHang stores the replay of a confirmed hang and announces it to the driver. Announcing early (before the
+// input is minimised) keeps the verdict even if the check runs out of time while minimising.
+func writeHang(path, sub string, raw []byte, note string, announce bool) {
+	f := vdrv.Failure{Property: "C16", Sub: sub, Case: json.RawMessage(raw), Expected: "the call returns within seconds", Detail: hangDetail(len(caseBytes(sub, raw))),
+		Observed: "killed after the CPU bound; normal time for an input of this size is a few milliseconds", Note: note,
+		FoundBy: map[string]interface{}{"tier": H.Tier, "seed": H.Seed, "shard": H.Shard}}
+	b, _ := json.MarshalIndent(f, "", " ")
+	tmp := path + ".tmp"
+	if os.WriteFile(tmp, b, 0o644) == nil {
+		os.Rename(tmp, path)
+	}
+	if announce {
+		fmt.Printf("SHARD-VIOLATION property=C16 replay=%s\n", path)
+		os.Stdout.Sync()
+	}
 }
 
 // minimiseSlow: delta debugging over the bytes of a transform case; the predicate "still uses more than
@@ -1077,17 +1113,26 @@ func triageSlow(sub string, raw []byte) slowVerdict {
 	if !ok {
 		return slowVerdict{Kind: "unconfirmed", Raw: raw, Detail: note}
 	}
-	min := minimiseSlow(sub, raw, 75*time.Second)
+	path := hangReplayPath(sub, raw)
+	origExtreme, _ := extremeNesting(caseBytes(sub, raw))
+	if !origExtreme {
+		writeHang(path, sub, raw, "not yet minimised", true)
+	}
+	min := minimiseSlow(sub, raw, 60*time.Second)
 	if !bytes.Equal(min, raw) {
 		if o := runChild(sub, min, hangCPU, hangWall); o.Kind != "hang" {
 			min = raw // the small bound used while minimising was not enough evidence for this one
 		}
 	}
-	if ext, why := extremeNesting(caseBytes(sub, min)); ext {
-		return slowVerdict{Kind: "extreme", Raw: min, Detail: why}
+	if origExtreme {
+		if ext, why := extremeNesting(caseBytes(sub, min)); ext {
+			return slowVerdict{Kind: "extreme", Raw: min, Detail: why}
+		}
+		writeHang(path, sub, min, "minimised by delta debugging in fresh processes", true)
+	} else {
+		writeHang(path, sub, min, "minimised by delta debugging in fresh processes", false)
 	}
-	return slowVerdict{Kind: "hang", Raw: min,
-		Detail:  fmt.Sprintf("the call does not terminate: a fresh process used more than %.0f s of CPU time on this input of %d bytes, three times out of three", hangCPU.Seconds(), len(caseBytes(sub, min))),
+	return slowVerdict{Kind: "hang", Raw: min, Path: path, Detail: hangDetail(len(caseBytes(sub, min))),
 		Observe: "killed after the CPU bound; normal time for an input of this size is a few milliseconds"}
 }
 
@@ -1146,9 +1191,11 @@ func judge(sub string, c interface{}, classes []string, nontrivial bool) vdrv.Ve
 		H.Note("%s: slow input beyond the nesting bound (%s): not charged as a hang; saved under evidence/observations/C16", sub, sv.Detail)
 		return vdrv.Skip("slow-beyond-nesting-bound")
 	}
-	v := vdrv.Fail(sv.Detail, "the call returns within seconds", sv.Observe)
-	reportFatal(sub, sv.Raw, v)
-	return v // not reached
+	// the replay is written and announced; a goroutine is still spinning inside esbuild: leave
+	fmt.Printf("C16: %s\n", sv.Detail)
+	H.Finish(false)
+	os.Exit(1)
+	return vdrv.Fail(sv.Detail, "the call returns within seconds", sv.Observe) // not reached
 }
 
 func saveObservation(sub string, raw []byte, why string) {
